@@ -64,11 +64,13 @@ fn main() {
         .and_then(|s| s.parse::<f64>().ok())
         .unwrap_or(1.0);
     let verif_dir = std::env::var("VERIF_DIR").map(PathBuf::from).unwrap_or_else(|_| PathBuf::from("/verif"));
+    let out_dir = std::env::var("VERIF_OUT_DIR").map(PathBuf::from).unwrap_or_else(|_| verif_dir.clone());
     let ctx = Ctx {
         prop: id,
         tier,
         seed,
         verif_dir,
+        out_dir,
         scale,
     };
     // watchdog: a wall-clock overrun is inconclusive (exit 2), never a violation
